@@ -101,6 +101,11 @@ pub struct Run {
 
 impl Run {
     pub fn new(prop: &str, level: &'static str, args: &Args) -> Run {
+        // top-level engine start (not a worker): reap scratch directories
+        // left behind by processes that no longer exist
+        if std::env::var("VKIT_WORKER").is_err() {
+            crate::fsutil::reap_stale();
+        }
         Run {
             prop: prop.to_string(),
             level,
